@@ -34,6 +34,20 @@ func (t *Timeline) AppendDeleteOK(at int) {
 	t.Jobs = append(t.Jobs[:at], t.Jobs[at+1:]...)
 }
 
+// CopyIntoEmpty: the destination has length 0 (only capacity), so copy copies nothing.
+func CopyIntoEmpty(ps []string) []string {
+	out := make([]string, 0, len(ps))
+	copy(out, ps)
+	return out
+}
+
+// CopyOK: a destination of the source's length.
+func CopyOK(ps []string) []string {
+	out := make([]string, len(ps))
+	copy(out, ps)
+	return out
+}
+
 // LoopAlias: one map, allocated before the loop, is filled in and appended on every iteration.
 func LoopAlias(in []map[string]int) []map[string]int {
 	var out []map[string]int
